@@ -396,7 +396,7 @@ func c11Scenario(h *H, root string, ti int) {
 			}
 		}
 		h.Rec("state", "followup", B(fok), HexS(fmsg))
-		lbl := []string{r.mode, fmt.Sprintf("packs:%d", minInt(npacks, 5)), fmt.Sprintf("indexes:%d", minInt(nidx, 4)),
+		lbl := []string{r.mode, fmt.Sprintf("packs:%d", c11MinInt(npacks, 5)), fmt.Sprintf("indexes:%d", c11MinInt(nidx, 4)),
 			fmt.Sprintf("full-every:%d", fullEvery), fmt.Sprintf("olds:%d", len(olds))}
 		h.Rec("labels", lbl...)
 		h.End()
@@ -418,7 +418,7 @@ func c11EmitSetupFailure(h *H, r CmdResult) {
 	h.End()
 }
 
-func minInt(a, b int) int {
+func c11MinInt(a, b int) int {
 	if a < b {
 		return a
 	}
